@@ -17,7 +17,9 @@ RULE = (
     "generated citations (several reporters and spellings x volumes x pages x contexts x kinds incl. placeholder pages, "
     "id., unknown, law, journal, short): for all pairs, == must coincide with an independent equality (same class, "
     "volume, page, corrected reporter, page not a placeholder; law/journal: groups and edition sets), be reflexive, "
-    "symmetric, transitive and consistent with hash and Resource; identity-only kinds equal only themselves. "
+    "symmetric, transitive and consistent with hash and Resource; identity-only kinds equal only themselves; in half of "
+    "the pools up to six citations that were already hashed and compared are cloned (copy, deepcopy, pickle round trip) "
+    "and the clones join the pool as further citation objects. "
     "Non-trivial: (a) a variation that parses to the expected single reading; (b) a pool containing an equal pair that "
     "differs in spelling or context; distinct = distinct case"
 )
@@ -132,6 +134,24 @@ def eval_pool(case):
         if c:
             cites.append((text, c[-1]))
             written.append(tuple(w) if w else None)
+    how = case.get("clone")
+    if how:
+        # Citations travel: results are copied, cached and sent between processes.  A clone of a citation that has
+        # already been hashed and compared is another citation object with the same content, so it is subject to the
+        # same laws (equal to the original iff the original's kind and page allow equality with another citation).
+        import copy
+        import pickle
+
+        f = {"copy": copy.copy, "deep": copy.deepcopy, "pickle": lambda x: pickle.loads(pickle.dumps(x))}[how]
+        for text, c in list(cites[: 6]):
+            call(lambda: (hash(c), c == c, {c: 1}))
+            d = call(f, c)
+            if isinstance(d, Raised):
+                res.v(f"clone-raises:{how}:" + d.bucket(), f"{c!r}")
+                continue
+            cites.append((text + f" [{how} of the above]", d))
+            written.append(None)
+        res.label("clones:" + how)
     interesting = False
     n = len(cites)
     eq = [[False] * n for _ in range(n)]
@@ -200,7 +220,7 @@ def _evaluate(case):
             res = Res()
             res.label("pattern-pool:single-string")
             return res
-        res = eval_pool({"texts": texts})
+        res = eval_pool({"texts": texts, "clone": [None, "copy", "deep", "pickle"][case["idx"] % 4]})
         res.label("pattern-pool")
         res.nontrivial = True
         res.key = ("pattern-pool", case["idx"])
@@ -264,7 +284,8 @@ def _pool(draw):
             texts.append({"t": f"{q[0]}{v} {r} {p}{q[1]}", "w": [v, r, p, "full", ""]})
         else:
             texts.append(draw(st.sampled_from(OTHER)))
-    return {"kind": "pool", "texts": texts, "tokenizer": draw(st.sampled_from(["ac", "ac", "hs"]))}
+    return {"kind": "pool", "texts": texts, "tokenizer": draw(st.sampled_from(["ac", "ac", "hs"])),
+            "clone": draw(st.sampled_from([None, None, "copy", "deep", "pickle"]))}
 
 
 def _pattern_pool_items():
